@@ -93,10 +93,7 @@ def decEnv (xs : List SExp) : Str → Option Str := fun k =>
     | .list [.str a, .str b] => if a == k then some b else none
     | _ => none
 
-def decOverrides (xs : List SExp) : Option (List OptItem) :=
-  xs.mapM fun
-    | .list [.list p, .str v] => (p.mapM getStr?).map fun path => { path := path, val := v }
-    | _ => none
+def decOverrides (xs : List SExp) : Option (List Str) := xs.mapM getStr?
 
 partial def encVal : Val → SExp
   | .none => .atom "none"
